@@ -267,8 +267,9 @@ class Patched:
         self.mp = mp
         self.pq = pq
         self.saved = (mp.threading, mp.sleep)
-        self.saved_pq = pq.RLock
-        pq.RLock = CoopRLock
+        self.saved_pq = getattr(pq, 'RLock', None)
+        if self.saved_pq is not None:
+            pq.RLock = CoopRLock
         mp.threading = _ThreadingShim()
         hook = self.sleep_hook
 
@@ -283,7 +284,8 @@ class Patched:
     def __exit__(self, *a):
         global SCHED
         self.mp.threading, self.mp.sleep = self.saved
-        self.pq.RLock = self.saved_pq
+        if self.saved_pq is not None:
+            self.pq.RLock = self.saved_pq
         SCHED = None
         return False
 
